@@ -181,6 +181,24 @@ Definition aff_mul_arc (m : Affine T) (a : Arc T) : Arc T :=
   let sweep_angle := if aff_determinant m <? f0 then - arc_sweep_angle a else arc_sweep_angle a in
   mkArc center radii start_angle sweep_angle rotation.
 
+(** [Affine::svd] with the minor radius taken from the determinant
+    (proposed_fixes/C10-svd-minor-radius.diff, another property's repair of the cancellation in
+    [sqrt(0.5 * (s1 - s2))]: [(|det| / x).min(x)]); equal to [aff_svd] over the reals, not on floats. Kept here so that
+    the correspondence can follow whichever of the two the tree implements. *)
+Definition aff_svd_det (m : Affine T) : Vec2 T * T :=
+  let a := aa m in let a2 := a * a in
+  let b := ab m in let b2 := b * b in
+  let c := ac m in let c2 := c * c in
+  let d := ad m in let d2 := d * d in
+  let ab_ := a * b in
+  let cd_ := c * d in
+  let angle := fhalf * fatan2 (f2 * (ab_ + cd_)) (a2 - b2 + c2 - d2) in
+  let s1 := a2 + b2 + c2 + d2 in
+  let s2 := fsqrt (fpowi (a2 - b2 + c2 - d2) 2 + fofZ 4 * fpowi (ab_ + cd_) 2) in
+  let x := fsqrt (fhalf * (s1 + s2)) in
+  let y := if x =? f0 then f0 else fmin (fabs (a * d - b * c) / x) x in
+  (mkVec2 x y, angle).
+
 (** ** translate_scale.rs *)
 Record TranslateScale := mkTS { ts_translation : Vec2 T; ts_scale : T }.
 
